@@ -3,8 +3,8 @@ from props._common import COMMON_TB
 PROP = dict(
     title="Compiled programs compute what the language reference specifies",
     lean_module="AbraProofs.Properties.C02",
-    required_theorems=["C02_compile_correct_F0", "C02_compile_correct_F0_program", "C02_depth_unsafe_counterexample",
-                       "C02_compile_correct_F0_needs_depth_safe", "C02_reg_roundtrip", "C02_reg_encode_range"],
+    required_theorems=["C02_compile_correct_F0", "C02_compile_correct_F0_program", "C02_d21_witness_repaired",
+                       "C02_break_pops_pending", "C02_reg_roundtrip", "C02_reg_encode_range"],
     harness_bin="c02",
     # `sem …` requests (end to end): the model IS the executable specification, so a difference is a concrete failing
     # program — the harness itself asks the model, shrinks the program and reports it through spec_fail (=> VIOLATION with
@@ -14,13 +14,14 @@ PROP = dict(
     rule="typed program generator (harness/src/progen.rs), tiers F0 (ints, bools, locals, operators, short-circuit, "
          "if/else, blocks+shadowing, let/var, assignment forms, while/break/continue, println), F1 (+tuples, structs and variants incl. void components in any position with refutable multi-arm matches over them, "
          "enums, match, arrays with aliasing, for, strings incl. all six comparison operators on designed pairs), F2 (+functions incl. void-typed parameters in any position, recursion, return, option/result, ?/!), "
-         "F3 (+lambdas, nested lambdas, captures, reassignment before/after creation); quick: 110+90+90+90 programs "
+         "F3 (+lambdas, nested lambdas, captures, reassignment before/after creation, top-level functions and struct constructors as first-class values (Sem `fnref`/`mkref`), arrays of functions called directly `fs[i](x)`); all tiers from F1: `_` in let annotations (`array<_>`, `(_, string)`, `_ -> int`), void struct fields as assignment targets with effectful object expressions; from F2: a function with 32..37 parameters called with operands pending; "
+         "two thirds of the programs have break/continue while operands of the enclosing loop are pending (blocks `{ if c { break } else { }; e }` as operands of operators, calls, tuple/array/struct components, `..` chains, match scrutinees/arms, compound right-hand sides; repaired D21); quick: 110+90+90+90 programs "
          "(4-12 statements, node budget 40-88), thorough: 4x2500 (budget up to 200); each compiled and run by the real "
          "compiler+VM under step budgets {1000},{1},{2,3,7},{100}; output + final value (Runtime::top for int/bool/"
          "string) + error kind compared with Abra.Sem on the generator's own AST; every F0 program additionally: real "
          "unoptimised <main> instruction stream (optimizer-trace hook) vs compileF0, modulo label names and slot "
-         "numbering; main stream is DepthSafe; ten regression programs of repaired defects (D16, D36-D39, D41, N6, N7, D59, D71) must behave as "
-         "the reference says (spec_fail otherwise, hist keys regression:*) and their shapes are unconditionally in the stream; D21 witnesses replayed; non-trivial = program with output, an error, or a jump in its code",
+         "numbering (the model emits the Pops of break/continue, fix 0c43abd); coverage-guided template families with Rust oracles (harness/src/bg9cov.rs): calls with 31..64 arguments through a generic / member function / function value / lambda, void struct field targets, wildcard annotations, `fs[1](4)` (D91), six D21 regression programs (break/continue in block, tuple, call-argument, `..`, array, struct, unary-minus and match operands, nested for, loop inside a lambda); ten regression programs of repaired defects (D16, D36-D39, D41, N6, N7, D59, D71) must behave as "
+         "the reference says (spec_fail otherwise, hist keys regression:*) and their shapes are unconditionally in the stream; the three former D21 witnesses are hard regression programs (105 / 105 / 6); non-trivial = program with output, an error, or a jump in its code",
     nontrivial=lambda req, imp: (req.startswith("sem") and (imp.startswith("error") or not imp.endswith(" -")))
                                 or (req.startswith("cgen") and "jump" in imp),
     trusted_base=COMMON_TB + [
@@ -37,15 +38,19 @@ PROP = dict(
         "where the reference is silent the interpreter follows the code: `o.f = e` evaluates e before o, in `f(args)` with an "
         "expression callee the arguments come first, break/continue in a while condition refer to the enclosing loop, "
         "`for x in arr` re-reads the length every iteration; generated programs keep such targets side-effect free",
-        "DepthSafe (no break/continue while an operand of the enclosing loop is pending) is a hypothesis of the F0 theorem; "
-        "its necessity is proved (C02_depth_unsafe_counterexample) and D21 is replayed as a known finding",
+        "the template families of harness/src/bg9cov.rs (calls with >= 32 arguments in generic/member/function-value form, void struct "
+        "field targets, wildcard annotations) use constructs outside the generator AST: their oracle is the expected output "
+        "computed in Rust from the language reference, not Abra.Sem",
+        "DepthSafe is no longer a hypothesis: the compile model follows the repaired translator (pending-operand count, Pops before "
+        "the jump of break/continue, 0c43abd) and C02_compile_correct_F0 / _program hold for every F0 program; outside F0 "
+        "(for loops, calls, tuples, match) the same behaviour is covered by the end-to-end tie only",
     ],
     design_ref="DESIGN.md §6 C02",
     level_text="Leroy-style compiler-correctness theorem for fragment F0 (simulation between the reference interpreter and the VM "
-               "core running compileF0 output, all expressions/programs, induction on fuel for loops), Reg encode/decode round trip, "
-               "proved counterexample without DepthSafe; broad differential tie against the reference interpreter for tiers F0-F3.",
+               "core running compileF0 output, all expressions/programs incl. break/continue in the middle of an expression, induction on fuel for loops), Reg encode/decode round trip, "
+               "the former D21 counterexample proved repaired; broad differential tie against the reference interpreter for tiers F0-F3.",
     level_note="partial: the theorem covers F0 only (ints, bools, locals, operators, if/else, blocks, let/var, assignment forms, "
-               "while/break/continue, println of ints/bools) under DepthSafe; heap data, functions, closures, match, for and strings "
+               "while/break/continue, println of ints/bools), without side condition; heap data, functions, closures, match, for and strings "
                "are covered by the end-to-end tie only. Type soundness ('well-typed F0 never gets stuck in Sem') is not proved; a "
                "stuck/timeout model answer shows as a mismatch in the tie.",
     technique="Lean 4 simulation proof (mutual induction on interpreter fuel) over hand-written models + differential "
